@@ -23,6 +23,15 @@ Space     N in {1,2,3,5,8} paths  x  ALL sequences of terminal spot values over 
           (identity, log), (log, identity), (log, log): the SAME product / ControlVariates objects are priced by successive
           fresh engines, so that a control's value function captured at the wrong moment (before or without
           Underlying.update) is seen in the stored control rows, which are compared with the control payoffs of the SPOT path.
+          Small-notional controls (both tiers): control kinds 1t (forward with notional 1e-7) and 2t (forward with notional
+          1e-3 + call with notional 1e-6), payoff s / v2, notional {1, 2.5}, df 0.9, A3 with N <= 5 and A4 with N in {3, 5}: the
+          regression coefficient does not depend on the scale of a control, so the full regression oracle applies; the
+          reference divides every centred control column by its own norm before the SVD / least-squares solve, and the
+          comparison tolerance is max(1e-9, 16 eps cond(Sigma_X of the raw samples)) (forward error of any covariance route).
+          Path-dependent payoffs (both tiers): Barrier call, the four types (up 1.25 / down 0.75, strike 0.25), over the alphabet
+          B9 of (spot at T/2, terminal spot) pairs {1, 2, 0.25} x {0.5, 1, 1.5} - the value at T/2 crosses up, down or not at
+          all, the terminal values 1.5 / 0.5 cross on their own, the path starts at spot 1 - N <= 3 (9^N <= 729), controls
+          none / 1a, spot statistics on/off, both representations; rows compared with the reference payoff of the whole path.
           quick = the full lattice for N <= 5 on A3 (and LOG for N <= 3), A4 for N <= 3 in full and N = 5 on the sub-lattice
           notional 2.5 / df 0.9 / spot on, N = 8 on that sub-lattice for payoff s, v2 and controls none, 1a, 2a;
           thorough = everything (N = 8 and A4 with N = 5 on the full lattice).
@@ -152,6 +161,26 @@ def cases(tier):
                     for reps in MIXED_REPS:
                         out.append({"sub": "mixed", "payoff": payoff, "cv": cv, "notional": notional, "df": 0.9, "spot": 1,
                                     "alphabet": "A3", "reps": list(reps), "N": n, "lo": 0, "hi": 3 ** n})
+    # control products with small notionals (1e-7; the pair 1e-3 / 1e-6): the regression coefficient does not depend on the
+    # scale of a control, so the full regression oracle applies (scale-invariant reference solve)
+    for alphabet, ns in (("A3", (1, 2, 3, 5)), ("A4", (3, 5))):
+        for n in ns:
+            for payoff in ("s", "v2"):
+                for cv in U.TINY_CV_KINDS:
+                    for notional in (1.0, 2.5):
+                        for lo, hi in _blocks(n, len(U.ALPHABETS[alphabet])):
+                            out.append({"sub": "sweep", "payoff": payoff, "cv": cv, "notional": notional, "df": 0.9, "spot": 1,
+                                        "alphabet": alphabet, "rep": "identity", "N": n, "lo": lo, "hi": hi})
+    # path-dependent payoffs: the four barrier types; letters are (spot at T/2, terminal spot) pairs, the stored rows are
+    # compared with the reference payoff of each WHOLE path; spot statistics on/off, both representations
+    for n in (1, 2, 3):
+        for payoff in U.BARRIER_KINDS:
+            for cv in ("none", "1a"):
+                for spot in (0, 1):
+                    for rep in ("identity", "log"):
+                        for lo, hi in _blocks(n, 9):
+                            out.append({"sub": "sweep", "payoff": payoff, "cv": cv, "notional": 2.5, "df": 0.9, "spot": spot,
+                                        "alphabet": "B9", "rep": rep, "N": n, "lo": lo, "hi": hi})
     for c in confs:
         if not thorough and not (sub_lattice(c) and c["payoff"] in ("s", "v2") and c["cv"] in ("none", "1a", "2a")):
             continue
@@ -283,8 +312,9 @@ def check_run(sh, case, letters, obs):
         Xr = np.array(X, dtype=float).reshape(n, ncv, d)
         if Xl.shape != Xr.shape:
             sh.violation(f"C07:rows:control:shape:{cvlab}:{dimk}", f"stored control array has shape {Xl.shape}, expected {Xr.shape}", detail0)
-        elif not np.allclose(Xl, Xr, rtol=1e-12, atol=1e-14 * scale):
-            bad = [int(v) for v in np.argwhere(~np.isclose(Xl, Xr, rtol=1e-12, atol=1e-14 * scale))[0]]
+        elif not np.all(np.abs(Xl - Xr) <= 1e-12 * np.abs(Xr) + 1e-14 * np.max(np.abs(Xr), axis=(0, 2), keepdims=True)):
+            # (absolute part relative to each control's own magnitude: a control may have a notional of 1e-7)
+            bad = [int(v) for v in np.argwhere(~(np.abs(Xl - Xr) <= 1e-12 * np.abs(Xr) + 1e-14 * np.max(np.abs(Xr), axis=(0, 2), keepdims=True)))[0]]
             sh.violation(f"C07:rows:control:row-differs-from-path-payoff:{cvlab}:{dimk}",
                          f"stored control row {bad[0]} control {bad[1]} component {bad[2]} = {Xl[tuple(bad)]!r}, reference {Xr[tuple(bad)]!r}",
                          dict(detail0, stored=Xl.tolist(), reference=Xr.tolist()))
@@ -359,18 +389,25 @@ def check_run(sh, case, letters, obs):
         xm = np.array([U.fmean(list(Xc[:, j])) for j in range(ncv)])
         Xcen = Xc - xm
         ycen = y - mean_ref[c]
-        sv = np.linalg.svd(Xcen, compute_uv=False) if n >= 1 else np.zeros(ncv)
+        # scale-invariant classification and solve: every control column is divided by its own norm first, so that a
+        # control product with a notional of 1e-7 is treated exactly like the same control with notional 1
+        colscale = np.maximum(np.max(np.abs(Xc), axis=0), np.abs(p))
+        colscale = np.where(colscale > 0, colscale, 1.0)
+        colnorm = np.sqrt(np.sum(Xcen ** 2, axis=0))
+        constant = colnorm <= 1e-13 * colscale * math.sqrt(n)
+        unit = np.where(constant, 1.0, colnorm)
+        Z = np.where(constant, 0.0, Xcen / unit)
+        sv = np.linalg.svd(Z, compute_uv=False)
         sv = np.concatenate([sv, np.zeros(max(0, ncv - len(sv)))])
         smax, smin = float(sv[0]), float(sv[ncv - 1])
-        xscale = max(nt * df, float(np.max(np.abs(Xc))))
-        if smax <= 1e-13 * xscale * math.sqrt(n) or smin <= DEFICIENT * smax:
+        if bool(np.any(constant)) or smin <= DEFICIENT * smax:
             cond = "rank-deficient"
         elif smin >= WELL * smax:
             cond = "well-conditioned"
         else:
             cond = "inconclusive"
         sh.cls(f"controls-sample:{cond}")
-        mean_hit = bool(np.all(np.abs(xm - p) <= 1e-14 * xscale))
+        mean_hit = bool(np.all(np.abs(xm - p) <= 1e-14 * colscale))
         var_raw = U.fvar(list(y)) if n >= 2 else 0.0
         a_lib = None if Al is None else Al[:, c]
         det = dict(detail0, component=c, conditioning=cond, singular_values=sv.tolist(), given_prices=p.tolist(),
@@ -383,22 +420,26 @@ def check_run(sh, case, letters, obs):
         main_ok = True
         if cond == "well-conditioned":
             sh.count("cv_well_conditioned")
-            b_ref = np.linalg.lstsq(Xcen, ycen, rcond=None)[0]
+            b_ref = np.linalg.lstsq(Z, ycen, rcond=None)[0] / unit
             a_ref = y - (Xc - p) @ b_ref
-            sc = max(scale, float(np.max(np.abs(a_ref))), float(np.sum(np.abs(b_ref)) * np.max(np.abs(Xc - p))))
+            sc = max(scale, float(np.max(np.abs(a_ref))), float(np.sum(np.abs(b_ref) * np.max(np.abs(Xc - p), axis=0))))
+            # forward error of any method that forms the controls' covariance matrix: eps * cond(Sigma_X) of the RAW samples
+            # (1e8 for a pair of controls with notionals 1e-3 / 1e-6); never below the standard 1e-9
+            sraw = np.linalg.svd(Xcen, compute_uv=False)
+            rt = max(1e-9, 16 * 2.3e-16 * float(sraw[0] / sraw[ncv - 1]) ** 2)
             price_ref = U.fmean(list(a_ref))
             det.update(b_ref=b_ref.tolist(), price_reference=price_ref, price_library=obs["price"][c], raw_mean=mean_ref[c])
-            price_ok = core.close(obs["price"][c], price_ref, rtol=1e-9, atol=1e-12 * sc, scale=sc)
-            rows_ok = a_lib is None or bool(np.allclose(a_lib, a_ref, rtol=1e-9, atol=1e-9 * sc))
+            price_ok = core.close(obs["price"][c], price_ref, rtol=rt, atol=1e-12 * sc, scale=sc)
+            rows_ok = a_lib is None or bool(np.allclose(a_lib, a_ref, rtol=rt, atol=rt * sc))
             main_ok = price_ok and rows_ok
             if not main_ok:
                 kind = "value"
-                adjusted = not np.allclose(a_ref, y, rtol=1e-9, atol=1e-9 * sc)  # the reference really moves the samples
+                adjusted = not np.allclose(a_ref, y, rtol=rt, atol=rt * sc)  # the reference really moves the samples
                 # (1) the given prices are looked up with the index of the payoff component instead of the control's
                 if cvk.endswith("r") and c < ncv:
                     a_alt = y - (Xc - np.full(ncv, P[c][0])) @ b_ref
-                    if core.close(obs["price"][c], U.fmean(list(a_alt)), rtol=1e-9, atol=1e-12 * sc, scale=sc) and (
-                            a_lib is None or np.allclose(a_lib, a_alt, rtol=1e-9, atol=1e-9 * sc)):
+                    if core.close(obs["price"][c], U.fmean(list(a_alt)), rtol=rt, atol=1e-12 * sc, scale=sc) and (
+                            a_lib is None or np.allclose(a_lib, a_alt, rtol=rt, atol=rt * sc)):
                         kind = "real-given-prices-indexed-by-payoff-component"
                 # (2) controls dropped (b = 0) although the regression coefficient exists and is not zero
                 if kind == "value" and adjusted and core.close(obs["price"][c], mean_ref[c], rtol=1e-12, atol=1e-14 * sc, scale=sc) and (
@@ -417,11 +458,11 @@ def check_run(sh, case, letters, obs):
             elif n >= 2:
                 # the error only when price and rows agree (one key per defect)
                 se_ref = U.fstd_err(list(a_ref))
-                if not core.close(obs["se"][c], se_ref, rtol=1e-9, atol=1e-9 * sc, scale=sc):
+                if not core.close(obs["se"][c], se_ref, rtol=rt, atol=rt * sc, scale=sc):
                     kind = "value"
-                    if d > 1 and core.close(obs["se"][c] * math.sqrt(d), se_ref, rtol=1e-9, atol=1e-9 * sc, scale=sc):
+                    if d > 1 and core.close(obs["se"][c] * math.sqrt(d), se_ref, rtol=rt, atol=rt * sc, scale=sc):
                         kind = "divided-by-sqrt-of-N-times-dimension"
-                    elif core.close(obs["se"][c] * math.sqrt(n / (n - 1.0)), se_ref, rtol=1e-9, atol=1e-9 * sc, scale=sc):
+                    elif core.close(obs["se"][c] * math.sqrt(n / (n - 1.0)), se_ref, rtol=rt, atol=rt * sc, scale=sc):
                         kind = "biased-standard-deviation"
                     sh.violation(f"C07:cv:mc_stddev:{kind}:{dimk}",
                                  f"mc_stddev()[{c}] = {obs['se'][c]!r}, unbiased standard deviation of the adjusted samples / sqrt({n}) = {se_ref!r}", det)
@@ -435,7 +476,7 @@ def check_run(sh, case, letters, obs):
                 diff = y - a_lib
                 ok_form = bool(np.all(np.isfinite(a_lib)))
                 if ok_form:
-                    b_any = np.linalg.lstsq(M, diff, rcond=None)[0]
+                    b_any = np.linalg.lstsq(M / colscale, diff, rcond=None)[0] / colscale
                     res = diff - M @ b_any
                     ok_form = bool(np.max(np.abs(res)) <= 1e-9 * sc)
                 if not ok_form:
